@@ -138,6 +138,10 @@ func validateClusterAndConstructClusterUpdate(cluster *v3clusterpb.Cluster, serv
 			maxSize = max.GetValue()
 		}
 
+		if minSize > maxSize || minSize > ringHashSizeUpperBound || maxSize > ringHashSizeUpperBound {
+			return ClusterUpdate{}, fmt.Errorf("ring_hash config min size %v or max size %v is invalid (min must not exceed max, neither may exceed %v) in response: %+v", minSize, maxSize, ringHashSizeUpperBound, cluster)
+		}
+
 		rhLBCfg := []byte(fmt.Sprintf("{\"minRingSize\": %d, \"maxRingSize\": %d}", minSize, maxSize))
 		lbPolicy = []byte(fmt.Sprintf(`[{"ring_hash_experimental": %s}]`, rhLBCfg))
 	case v3clusterpb.Cluster_LEAST_REQUEST:
